@@ -143,7 +143,7 @@ def leancheck(prop):
     import shutil
     if not shutil.which("leanchecker"):
         return False, None
-    mods = [f"AptMirror.Props.{prop}"] + {"C01": ["AptMirror.Props.C01Pool"]}.get(prop, [])
+    mods = [f"AptMirror.Props.{prop}"] + {"C01": ["AptMirror.Props.C01Pool"], "C17": ["AptMirror.Props.C17Vars"]}.get(prop, [])
     try:
         r = subprocess.run(["lake", "env", "leanchecker"] + mods, cwd=LEAN, capture_output=True, text=True, timeout=900)
     except subprocess.TimeoutExpired:
